@@ -503,7 +503,8 @@ fn answers(
             list.push(Call::StablePrefilter);
         }
         let mut out = Vec::new();
-        if und <= 14 {
+        // (wide ADFs under arbitrary orders: the one diagram for all conditions can be exponential, not asked there)
+        if und <= 14 && names.len() <= 30 {
             // the single-formula rewriting variants (prepared from the parser and internal)
             let bio_rw = adf_bdd::adfbiodivine::Adf::from_parser_with_stm_rewrite(p);
             let bio = adf_bdd::adfbiodivine::Adf::from_parser(p);
@@ -689,7 +690,11 @@ pub fn c10(tier: Tier) -> PropSpec {
                 c10_check,
             ),
             // the observation points named in the property: the CLI with --lx / --an (all three modes) ...
+            // 66..130 statements (a small cyclic core, a few statements computed from it, the rest decided by grounding)
+            // under two independent presentations: which statements sit beyond position 64 / 128 depends on the presentation
+            Part::new("wide", tier.pick(400, 4000), || meta_case(gen::adf_stratified(66, 130, 4)), c10_check),
             crate::props::cli::padded_cli_part("cli-padded", tier.pick(90, 900)),
+            crate::props::cli::bignum_cli_part("cli-bignum", tier.pick(90, 900)),
             crate::props::cli::sem_cli_part("cli-sort", &[crate::props::cli::Flag::Grd, crate::props::cli::Flag::Com, crate::props::cli::Flag::Stm], tier.pick(150, 1500)),
             // ... and sorting options combined with --export / --import
             Part::with_shrink(
